@@ -265,6 +265,11 @@ func newSrcNoise(rng *rand.Rand, kind string, r image.Rectangle) image.Image {
 	case kind == "Gray":
 		m := image.NewGray(r)
 		fill(m.Pix)
+		for i := range m.Pix {
+			if rng.Intn(9) == 0 {
+				m.Pix[i] = []byte{0, 255, 1, 254}[rng.Intn(4)]
+			}
+		}
 		return m
 	case kind == "Gray16":
 		m := image.NewGray16(r)
@@ -362,6 +367,11 @@ func init() {
 			w, h := pick(rng, 0, 1, 1, 2, 3, 5, 9), pick(rng, 0, 1, 1, 2, 3, 6, 9)
 			if rng.Intn(20) != 0 && (w == 0 || h == 0) {
 				w, h = 1+rng.Intn(6), 1+rng.Intn(6)
+			}
+			if it%50 == 7 {
+				// now and then an image with more pixels than an 8-bit channel has values (per-value tables, caches
+				// and thresholds on the pixel count only show there)
+				w, h = 17+rng.Intn(8), 16+rng.Intn(6)
 			}
 			tall := it >= n // more rows than processors: run afterwards with GOMAXPROCS lowered to 2
 			if tall {
